@@ -176,7 +176,7 @@ CHECKS = {
         note="Trusted: Lean kernel; axioms propext/Quot.sound/Classical.choice; Spec/Rfc2047Dec.lean as the reading of RFC 2047 / RFC 5322 2.2.3; "
              "the hypothesis that a Rust string has no four UTF-8 continuation octets in a row; model + harness. Structured fields (display "
              "names, RFC 2231 parameters) are checked on real output only.",
-        technique="Lean 4 proof (reader o encoder = identity for all texts: invariant over the encoder's loop, reader-side chain theorem) + correspondence with the same RFC 2047 reader on real output"),
+        technique="Lean 4 proof (reader o encoder = identity for all texts, display names and file names: invariants over the encoders' loops, reader-side chain theorems for RFC 2047 / 5322 / 2231) + octet-exact correspondence of the three encoder models, the same readers applied to real output"),
     "C17": dict(
         category="proof",
         text="Lean theorems on the header map (get_after_set under any letter case, one_entry_per_name, name_case_insensitive) and on the Date "
